@@ -142,8 +142,9 @@ def run(ctx, rep):
         # P3 facts
         sp_constructed = constructed_variants(prog, 'rust_types::SpecialRustType')
         occ = {}
+        used_entries = {}
         for s in sorted(sites, key=lambda s: (s['file'], s['line'], s['bb'])):
-            base = f"{s['kind']}:{os.path.basename(s['file'])}:{s['snippet'][:120]}"
+            base = f"{s['kind']}:{os.path.basename(s['file'])}:{s['fn'].split('::')[-1]}:{abstract(s['snippet'])[:120]}"
             occ[base] = occ.get(base, 0) + 1
             key = f"{base}#{occ[base]}"
             if (key in seen_keys):
@@ -171,7 +172,7 @@ def run(ctx, rep):
                     rep.ok('P3', key, 'unreachable!() arm inside the RustEnum::Unit printer; RustEnum::Unit is only constructed after the all-variants-are-unit test (parse_enum)', site)
                     continue
             # table lookup
-            ent = lookup(table, s)
+            ent = lookup(table, s, used_entries)
             if ent is None:
                 rep.fail('P2', key, f"unclassified panic-capable construct `{s['snippet'][:100]}` ({s['kind']}, {s['callee'][:70]}) in {s['fn']}; reached via {path}", site)
             elif ent['class'] == 'guarded':
@@ -246,16 +247,41 @@ def unit_enum_invariant(ctx, prog, rep):
     return ok
 
 
-def lookup(table, s):
-    for e in table['sites']:
+def abstract(snippet):
+    """Name-independent shape of a source snippet: identifiers that are neither a member (`.x`, `::x`), a call/macro/path
+    head (`x(`, `x!`, `x::`) nor `self` become `$` — renaming a local variable or parameter does not change the shape."""
+    out = []
+    sn = norm(snippet)
+    for m in re.finditer(r'[A-Za-z_][A-Za-z0-9_]*|.', sn):
+        t = m.group(0)
+        if re.fullmatch(r'[A-Za-z_][A-Za-z0-9_]*', t):
+            before = sn[m.start() - 1] if m.start() > 0 else ''
+            after = sn[m.end():m.end() + 2]
+            keep = t in ('self', 'Self', 'true', 'false', 'as', 'mut') or (before == '.' and sn[max(0, m.start() - 2):m.start()] != '..') or sn[max(0, m.start() - 2):m.start()] == '::' or after[:1] in ('(', '!') or after == '::' or t[0].isupper()
+            out.append(t if keep else '$')
+        else:
+            out.append(t)
+    return ''.join(out)
+
+
+def lookup(table, s, used=None):
+    """Table entry for a site: same kind, file and (when given) enclosing function, same name-independent shape.
+    An entry covers `count` sites (default 1) of its function; further look-alike sites are unclassified."""
+    shape = abstract(s['snippet'])
+    for i, e in enumerate(table['sites']):
         if e['kind'] != s['kind']:
             continue
-        if norm(e['snippet']) != s['snippet'][:len(norm(e['snippet']))] and norm(e['snippet']) != s['snippet']:
+        es = abstract(e['snippet'])
+        if es != shape[:len(es)] and es != shape:
             continue
         if e.get('file') and not s['file'].endswith(e['file']):
             continue
         if e.get('fn') and e['fn'] not in s['fn']:
             continue
+        if used is not None and e.get('fn'):
+            if used.get(i, 0) >= e.get('count', 1):
+                continue
+            used[i] = used.get(i, 0) + 1
         return e
     return None
 
@@ -310,7 +336,8 @@ def p4(ctx, prog, rep):
         return
     # where is the receiver consumed?
     consumers = []
-    for k in [pp[0]] + prog.children.get(pp[0], []):
+    whole = prog.region(pp, stop=('parse_dir_entry',))   # parallel_parse, its closures, and local helpers they call
+    for k in whole:
         for c in prog.bodies[k]['calls']:
             if 'crossbeam_channel' in c['callee'] and re.search(r'(IntoIter|Iter|TryIter).*::next$|Receiver<T>::(recv|try_recv|recv_timeout|iter|try_iter)$|IntoIterator>::into_iter$', c['callee']):
                 consumers.append((k, c))
@@ -323,23 +350,21 @@ def p4(ctx, prog, rep):
                 spawned_closures.add(r['key'])
     ok = False
     why = 'the bounded channel is consumed only on the thread that also runs the walker, after/around WalkParallel::run — more than capacity pending results block every producer forever'
+    on_thread = set(prog.region(sorted(spawned_closures), stop=('parse_dir_entry',))) if spawned_closures else set()
     for k, c in consumers:
-        root_closure = k
-        while prog.bodies[root_closure].get('parent') and prog.bodies[root_closure]['parent'] != pp[0]:
-            root_closure = prog.bodies[root_closure]['parent']
-        if root_closure in spawned_closures and any(prog.dominates(b, sp['bb'], r['bb']) for sp in spawn for r in run):
+        if k in on_thread and k != pp[0] and any(prog.dominates(b, sp['bb'], r['bb']) for sp in spawn for r in run):
             ok = True
     rep.check(ok, 'P4', 'consumer-runs-concurrently', 'receiver is drained by a closure handed to thread::spawn before WalkParallel::run starts', why, site)
     # worker sends vs collector early exit
     send_unwraps = []
-    for k in prog.children.get(pp[0], []):
+    for k in whole:
         for c in prog.bodies[k]['calls']:
             if c['callee'].endswith(UNWRAPS) and 'send(' in c['snippet']:
                 send_unwraps.append(c)
     early = False
-    for k in spawned_closures:
+    for k in on_thread:
         for c in prog.bodies[k]['calls']:
-            if c['callee'].endswith('Try>::branch') or 'Try::branch' in c['callee']:
+            if c['callee'].endswith('Try>::branch') or 'Try::branch' in c['callee'] or re.search(r'FromIterator<.*Result', c['callee']):
                 early = True
     if send_unwraps and early:
         rep.fail('P4', 'send-unwrap-vs-early-exit', f'collector returns on the first Err (drops the receiver) while {len(send_unwraps)} worker-side `send(..).unwrap()` panic on a disconnected channel — two failing files panic a walker thread', {'file': 'cli/src/parse.rs', 'line': send_unwraps[0]['line']})
